@@ -1012,6 +1012,13 @@ def annot(tier, seed, ci, nc, count=4000):
 STREAMS['annot'] = annot
 
 
+def probes_c11(tier, seed, ci, nc):
+    yield ('rt:class_annotations',)
+
+
+STREAMS['probes_c11'] = probes_c11
+
+
 # ----------------------------------------------------------------------------- declared forwarding, really executed (C04)
 def declfwd(tier, seed, ci, nc, count=600):
     """wrapper/inner pairs from the universe declared with forwards_to_function / _method / _super /
